@@ -88,7 +88,9 @@ def run_spec(spec, cfg, tier, seed):
         return run_bounded(spec, cfg, tier, seed)
     if spec.kind == "custom":
         return spec.body(spec, cfg, tier, seed)
-    tmo = spec.timeout_ms * (15 if tier == "thorough" else 1)
+    # wall-clock solver budgets are sized for a loaded machine (verdicts must not flip when all cores are busy): 3x the nominal
+    # per-spec budget in the quick tier, 15x in the thorough tier; a fast query is unaffected by a generous budget
+    tmo = spec.timeout_ms * (15 if tier == "thorough" else 3)
     res = H.run_symbolic(spec, cfg, max_paths=spec.max_paths * (8 if tier == "thorough" else 1), solver_timeout_ms=tmo, crosscheck=spec.crosscheck * (4 if tier == "thorough" else 1), seed=seed)
     # fallback search: an obligation the engine could not decide, or a solver model that does not replay, is searched natively
     need = [r for r in res if r.verdict in ("undecided", "error") or (r.verdict == "refuted" and not r.replay_confirmed)]
@@ -301,6 +303,8 @@ def finish(prop, tier, seed, specs, results, wall, a):
                 faults.append(r)
             continue
         if r["verdict"] == "undecided":
+            if r["kind"] == "crosscheck":
+                continue  # an inconclusive differential cross-check is recorded in the evidence, it is not a verdict on the property
             undecided.append(r)
         else:
             faults.append(r)
@@ -419,7 +423,7 @@ def write_evidence(prop, tier, seed, specs, results, known_hits, violations, und
             "note": "bounded stand-in: contract evaluated natively on sampled inputs; never counted in obligations/discharged",
             "items": [{"ob": r["ob"], "config": r["config"], "detail": r["detail"], "verdict": r["verdict"]} for r in bounded][:40],
         },
-        "crosscheck": {"harnesses": len(cross), "ok": sum(r["verdict"] == "discharged" for r in cross)},
+        "crosscheck": {"harnesses": len(cross), "ok": sum(r["verdict"] == "discharged" for r in cross), "inconclusive": sum(r["verdict"] == "undecided" for r in cross)},
         "out_of_reach": m.get("out_of_reach", []),
         "assumption_scan": {k: {"count": len(v), "sites": v[:25]} for k, v in scan.items()},
         "undecided": [{"ob": r["ob"], "config": r["config"], "detail": r["detail"][:200]} for r in undecided],
